@@ -67,6 +67,13 @@ def gen_cases(seed, count):
     return cases
 
 
+def _perms(groups, tail, rng, limit=6):
+    import itertools
+    ps = list(itertools.permutations(groups))
+    rng.shuffle(ps)
+    return [[a for g in p for a in g] + tail for p in ps[:limit]]
+
+
 def invalid_cases(seed):
     rng = random.Random(seed * 104729 + 5)
     out = []
@@ -90,8 +97,16 @@ def invalid_cases(seed):
             ]
             if tool != "skinny-ecb":
                 opt = "-t" if tool == "skinny-tweak" else "-c"
-                out += [(tool, "counter-or-tweak-too-long", b + ["-k", good, opt, "11" * (bb + 1), "IN", "OUT"]),
-                        (tool, "counter-or-tweak-bad-hex", b + ["-k", good, opt, "12xx", "IN", "OUT"])]
+                for n_extra in (1, 2, bb if bb == 8 else 3):       # for -b64: lengths 9,10,16 (legal for 128-bit blocks, illegal for 64)
+                    for args in _perms([b, ["-k", good], [opt, "11" * (bb + n_extra)]], ["IN", "OUT"], rng):
+                        out.append((tool, "counter-or-tweak-too-long-by-%d" % n_extra, args))
+                out += [(tool, "counter-or-tweak-bad-hex", a) for a in _perms([b, ["-k", good], [opt, "12xx"]], ["IN", "OUT"], rng, 3)]
+            # the same key/size classes with the options in other orders
+            for cls, kh in (("key-too-short", good[:2 * (bb - 1)]), ("key-too-long", "ab" * (maxk + 1))):
+                out += [(tool, cls + "-reordered", a) for a in _perms([b, ["-k", kh]], ["IN", "OUT"], rng, 2)]
+            if bb == 8:
+                # a key legal for 128-bit blocks but too long for 64-bit blocks, with -b after -k
+                out.append((tool, "key-too-long-for-64-b-after-k", ["-k", "ab" * (maxk + 4), "-b", "64", "IN", "OUT"]))
     return out
 
 
@@ -112,11 +127,15 @@ def run(out):
             data = bytes(rng.getrandbits(8) for _ in range(c["len"])) if rng.random() < 0.9 else bytes(c["len"])
             with open(inp, "wb") as f:
                 f.write(data)
-            args = ["-b", str(c["bb"] * 8), "-k", c["khex"]]
+            groups = [["-b", str(c["bb"] * 8)], ["-k", c["khex"]]]
+            if c["bb"] == 16 and rng.random() < 0.3:
+                groups = groups[1:]                      # 128 is the default block size
             if c["thex"] is not None:
-                args += ["-t" if c["tool"] == "skinny-tweak" else "-c", c["thex"]]
+                groups.append(["-t" if c["tool"] == "skinny-tweak" else "-c", c["thex"]])
             if c["dec"]:
-                args += ["-d"]
+                groups.append(["-d"])
+            rng.shuffle(groups)                          # options may come in any order
+            args = [a for g in groups for a in g]
             res = []
             desc = {"tool": c["tool"], "variant": vname, "block": c["bb"] * 8, "file_length": c["len"], "key_len": len(c["key"]), "key": c["khex"],
                     "counter_or_tweak": c["thex"], "decrypt": c["dec"]}
